@@ -15,6 +15,7 @@ type EngineGenOpts struct {
 	Ops      int  // approximate number of operations
 	FixedIO  int  // -1: draw, else force this FileIOType
 	HostileCaller bool
+	MergeHeavy    bool // several merges per scenario, each followed by restarts (adoption, second restart), small files
 }
 
 type cfgGen struct {
@@ -134,6 +135,9 @@ func GenEngineScript(r *Rng, o EngineGenOpts, hist map[string]int) []string {
 			add("get %s", k2)
 		}
 	}
+	if o.MergeHeavy {
+		c.fsize = r.Pick(64, 64, 200, 200, 700, 4096)
+	}
 	nops := o.Ops/2 + r.Intn(o.Ops)
 	backupN := 0
 	var backups []string
@@ -148,6 +152,55 @@ func GenEngineScript(r *Rng, o EngineGenOpts, hist map[string]int) []string {
 	}
 	for i := 0; i < nops; i++ {
 		x := r.Intn(100)
+		if o.MergeHeavy && r.Chance(1, 8) {
+			// merge, perhaps more writes, then the adopting restart and a second restart
+			hist["op_merge_cycle"]++
+			add("merge")
+			add("dump")
+			add("files")
+			for j := r.Intn(4); j > 0; j-- {
+				switch r.Intn(4) {
+				case 0:
+					add("del %s", genEngKey(r, hist))
+				case 1:
+					if o.Batches {
+						add("batch 0")
+						add("bput %s %s", genEngKey(r, hist), genEngVal(r, o, c, hist))
+						add("bdel %s", genEngKey(r, hist))
+						add("commit")
+						break
+					}
+					fallthrough
+				default:
+					add("put %s %s", genEngKey(r, hist), genEngVal(r, o, c, hist))
+				}
+			}
+			if r.Chance(1, 5) {
+				add("merge")
+				add("files")
+				hist["op_merge_twice"]++
+			}
+			if r.Chance(4, 5) {
+				inspect()
+				add("close")
+				add("files")
+				c = genCfg(r, o, hist)
+				if r.Chance(2, 3) {
+					c.fsize = r.Pick(64, 200, 700, 4096)
+				}
+				add("open %s", c)
+				inspect()
+				add("files")
+				if r.Chance(1, 2) {
+					add("close")
+					c = genCfg(r, o, hist)
+					add("open %s", c)
+					inspect()
+					add("files")
+				}
+			}
+			continue
+		}
 		switch {
 		case x < 38:
 			add("put %s %s", genEngKey(r, hist), genEngVal(r, o, c, hist))
@@ -402,6 +455,10 @@ func init() {
 				o.Backups = true
 			case "bigvals":
 				o.BigVals = true
+			case "mergeheavy":
+				o.MergeHeavy = true
+				o.Merges = true
+				o.Restarts = true
 			}
 		}
 		r := NewRng(*seed)
